@@ -20,6 +20,7 @@ PROPERTY = "C18"
 FUNCTIONS = ["SelectChoiceValidator.validate", "ChoiceQuestion.__init__/_write_prompt", "Question.ask/_do_ask/_validate_attempts/_read_from_input/_write_error",
              "ConfirmationQuestion._get_default_normalizer", "Input.read_line/is_interactive", "IO.read_line/error/error_line"]
 PART = {}
+EXTRA_BOUNDS = 'also: a list with surrounding blanks and a one-entry list; the same question object asked again after a failed / aborted / successful dialogue; patterns (?i)^y, ^(j|ja)$, ^Y over {y,Y,n,j,J,a,space}; a 5 s deadline turns a non-interactive question that asks forever into a counterexample.'
 BOUNDS = {"quick": "validator: 8 choice lists (numeric-looking, duplicated, spaced inside and around, case-differing, a single entry) x single/multi-select x every answer <= 3 chars over {a,b,A,0,1,2,-,space,comma}; dialogues: scripts of <= 3 lines from a 9-line menu x end-of-input after 0..3 lines x attempts {unlimited,1,2,3} x default none/index; "
                    "confirmation: 2 patterns x defaults x answers <= 3 chars over {y,Y,n,j,a,space}; non-interactive questions",
           "thorough": "answers <= 4 chars, scripts of 4 lines"}
